@@ -779,10 +779,20 @@ impl rustc_driver::Callbacks for Cb {
         let mut ex = Ex { tcx, types: Vec::new(), type_ix: BTreeMap::new() };
         let mut fns = Vec::new();
         let mut statics = Vec::new();
+        let mut consts = Vec::new();
         for ldid in tcx.hir_body_owners() {
             let did = ldid.to_def_id();
             match tcx.def_kind(did) {
                 DefKind::Fn | DefKind::AssocFn | DefKind::Closure => {}
+                DefKind::Const { .. } => {
+                    // the initialiser of a named constant, so that a rule can ask what `cell::ZERO` is
+                    if tcx.generics_of(did).count() == 0 {
+                        let body = tcx.mir_for_ctfe(ldid);
+                        let j = ex.body(did, body);
+                        consts.push((ex.path(did), j));
+                    }
+                    continue;
+                }
                 DefKind::Static { mutability, .. } => {
                     statics.push(obj(vec![
                         ("path", s(ex.path(did))),
@@ -815,6 +825,7 @@ impl rustc_driver::Callbacks for Cb {
             ("fns", J::O(fns)),
             ("adts", adts),
             ("statics", J::A(statics)),
+            ("consts", J::O(consts)),
             ("unsafe_blocks", unsafe_blocks),
         ]);
         let mut out = String::new();
